@@ -13,7 +13,9 @@ Request  `{"nodes": [[kind, label, [in…], [[args, results]…]]…]   (oldest 
            "seed":  n,
            "allArgs": [a…],        (optional) the caller's full input list, in the caller's order: the
                                    answer then carries `used` = `usedArgs` of (allArgs, results) and
-                                   `dropValid` = `validG` of the emission against `dropUnused` of it
+                                   `dropValid` = `validG` of the emission against `dropUnused` of it,
+                                   `leaf` = `argsLeaf`, `argsOk` = every caller input `isArg` and `notFormal`
+                                   (the side conditions of `usedArgs_least`)
            "denote": bool}`        (false: skip `denoteG` — its cost is exponential in the number of
                                    body-bearing nodes, the harness skips it for the few huge programs)
 Response `{"wf", "valid", "runs": [{"eval": [v…] | null, "denote": [v…]}…]}` where `eval` is
@@ -106,7 +108,9 @@ def handle (req : Json) : Json :=
       | none => []
       | some aa =>
         let full : PGraph := ⟨aa, main.results⟩
-        [("used", toJson (usedArgs prog full)), ("dropValid", toJson (validG prog e (dropUnused prog full) []))]
+        [("used", toJson (usedArgs prog full)), ("dropValid", toJson (validG prog e (dropUnused prog full) [])),
+         ("leaf", toJson (argsLeaf prog)),
+         ("argsOk", toJson (aa.all fun a => isArg prog a && notFormal prog a))]
     return Json.mkObj ([
       ("wf", toJson (wfCheck prog)),
       ("valid", toJson (validG prog e main [])),
